@@ -115,7 +115,14 @@ EffSize ==
   ELSE LET WW == (DOMAIN st.w) \cap (DOMAIN st'.w)
            n == SumF([x \in WW |-> ChangedRecs(st.w[x].outs, st'.w[x].outs) + ChangedRecs(st.w[x].txs, st'.w[x].txs)], WW)
        IN IF n = 0 THEN -1 ELSE IF n > 4 THEN 4 ELSE n
-Log(e) == hist' = Append(hist, [f \in (DOMAIN e) \cup {"eff"} |-> IF f = "eff" THEN EffSize ELSE e[f]])
+\* ... and in what kind of wallet state the step was taken: the output statuses (ost) and log entry
+\* types (tty) present in the acting wallet before the step
+ActW(e) == IF "w" \in DOMAIN e /\ e.w \in DOMAIN st.w THEN e.w ELSE ""
+Log(e) == hist' = Append(hist, [f \in (DOMAIN e) \cup {"eff", "ost", "tty"} |->
+                                  IF f = "eff" THEN EffSize
+                                  ELSE IF f = "ost" THEN (IF ActW(e) = "" THEN {} ELSE {st.w[ActW(e)].outs[k].st : k \in DOMAIN st.w[ActW(e)].outs})
+                                  ELSE IF f = "tty" THEN (IF ActW(e) = "" THEN {} ELSE {st.w[ActW(e)].txs[t].ty : t \in DOMAIN st.w[ActW(e)].txs})
+                                  ELSE e[f]])
 
 \* ------------------------------------------------------------------ actions
 \* every action: st' from the step operator, hv' maintained as in the trace spec,
@@ -308,6 +315,18 @@ ForeignFinalizeBogus(sl) ==
      /\ AdvCount < MaxAdv
      /\ Upd(s2, HvAfterFinalize(st, s2, hv, "w1", sl, FALSE), AdvMark,
             [ev |-> "finalize", w |-> "w1", sl |-> sl, stage |-> "S1", rep |-> 0, foreign |-> TRUE, tamper |-> "bogus"])
+\* the same bogus reply claiming a cut-off height that has long passed: refused as expired,
+\* and a refusal must leave the pending transaction (its private context included) alone
+ForeignFinalizeExpired(sl) ==
+  /\ sl \in DOMAIN st.w["w1"].ctxs
+  /\ \E m \in net : m.sl = sl /\ m.stage = "S1"
+  /\ AdvCount < MaxAdv
+  /\ LET cx == st.w["w1"].ctxs[sl]
+         r == Finalize(st, "w1", [sl |-> sl, stage |-> "S2", rep |-> 0, rkern |-> "part", ttl |-> 1, valid |-> FALSE, proofok |-> TRUE,
+                                  hasproof |-> FALSE, rout |-> {}, lsel |-> {}, lchg |-> <<>>])
+         s2 == LastOr(r.steps, st) IN
+     Upd(s2, HvAfterFinalize(st, s2, hv, "w1", sl, FALSE), AdvMark,
+         [ev |-> "finalize", w |-> "w1", sl |-> sl, stage |-> "S1", rep |-> 0, foreign |-> TRUE, tamper |-> "bogus_expired"])
 \* a coinbase request naming the key of an existing record
 ForeignCoinbaseKey(k) ==
   /\ k \in DOMAIN st.w["w1"].outs
@@ -334,12 +353,12 @@ Next ==
   \/ UseMineTo /\ MineAct("w1")
   \/ \E w \in DOMAIN st.w : RefreshAct(w)
   \/ MaxFork > 0 /\ \E d \in 1..MaxFork : \E keep \in SUBSET Mined(st) : ForkAct(d, keep)
-  \/ UseScan /\ (RestoreAct \/ \E w \in DOMAIN st.w : \E del \in BOOLEAN : ScanAct(w, del))
+  \/ UseScan /\ ((~UseSelf /\ RestoreAct) \/ \E w \in DOMAIN st.w : \E del \in BOOLEAN : ScanAct(w, del))
   \/ UseDiverge /\ \E kind \in {"delete", "spent", "unspent", "lock"} : \E k \in DOMAIN st.w["w1"].outs : DivergeAct(kind, k)
   \/ \E w \in WS : \E t \in DOMAIN st.w[w].txs :
         st.w[w].txs[t].acct = st.w[w].active /\ CancelAct(w, st.w[w].txs[t].id, "")
   \/ UseCancelBySlate /\ \E w \in WS, sl \in Slates : CancelAct(w, -1, sl)
-  \/ UseAdv /\ \E sl \in Slates : ForeignFinalizeBogus(sl) \/ ForeignReceiveOwn(sl)
+  \/ UseAdv /\ \E sl \in Slates : ForeignFinalizeBogus(sl) \/ ForeignReceiveOwn(sl) \/ ForeignFinalizeExpired(sl)
   \/ UseAdv /\ \E k \in DOMAIN st.w["w1"].outs : ForeignCoinbaseKey(k)
 
 Spec == Init /\ [][Next]_vars
@@ -374,6 +393,7 @@ Prop_Replay ==
   [][Stepped /\ Ev.ev \in {"lock", "receive", "finalize"} =>
        ChkA(ReplayNoEffectA(st, st', hv, Ev.w, Ev.ev, Ev.sl, "ok",
                             IF Ev.ev = "receive" THEN AcctOf(st, Ev.w, Ev.dest) ELSE ""), "ReplayNoEffect")]_vars
+Prop_NoReverted == [][Stepped => ChkA(NoRevertedSelected(st, st', Ev.ev = "finalize"), "NeverSelectsReverted")]_vars
 Prop_SelectAvoidsReserved ==
   [][Stepped /\ Ev.ev \in {"init_send", "process_invoice"} =>
        ChkA(SelectAvoidsReserved(st, st', Ev.w, Ev.sl), "SelectAvoidsReserved")]_vars
